@@ -6,7 +6,7 @@
  'inject': [{'file': 'compat/libc/string/strtok.c', 'func': 'strtok_r', 'at': 'func-begin',
              'ghost': 'g_strchr_L = g_strtok_Ld; g_strchr_k = g_strtok_j;'},
             {'file': 'compat/libc/string/strtok.c', 'func': 'strtok_r', 'loop': 0, 'expect': 'do',
-             'assigns': 'str, ch, g_strchr_end, g_strtok_w',
+             'assigns': 'str, ch, g_strchr_end, g_strtok_w, g_strtok_t',
              'invariants': ['__CPROVER_same_object(str, g_strtok_S) && C08_IDX(str, g_strtok_S) <= g_strtok_L',
                             'C08_IMP(g_strtok_k < C08_IDX(str, g_strtok_S), g_strtok_v != 0 && C08_W_NOW <= g_strtok_Ld && delim[C08_W_NOW] == g_strtok_v && C08_IMP(g_strtok_j < C08_W_NOW, delim[g_strtok_j] != 0))'],
              'decreases': 'g_strtok_L - C08_IDX(str, g_strtok_S)'},
@@ -19,7 +19,8 @@
             {'file': 'compat/libc/string/strtok.c', 'func': 'strtok_r', 'at': 'before', 'anchor': 'return --str;',
              'ghost': 'g_strtok_next = C08_IDX(*saveptr, g_strtok_S);'}],
  'ghost_calls': ['C08_IDX'],
- 'kf': ['C08_strtok_r_saveptr'],
+ 'kf': ['C08_strtok_r_saveptr'], 'kf_probe_case': {'C08_strtok_r_saveptr': {'C08_FIXOFF': 0, 'FIRST': 1}},
+ 'params': {'C08_FIXOFF': [0, 3], 'FIRST': [0, 1]},
  'assumptions': ['strtok_r: the string, delim and the saveptr variable are three distinct objects'],
  'witness': {'unwind': 8},
 } @*/
@@ -43,7 +44,7 @@ void harness(void)
     WIT(size_t, Ld);
     WIT(size_t, k);
     WIT(size_t, j);
-    WIT(_Bool, first);
+    _Bool first = FIRST;              /* 1: first call (str != NULL); 0: continuation call (str == NULL) */
     WIT(_Bool, nullsave);
     WIT_ARR(char, cs, 6);
     WIT_ARR(char, cdl, 6);
@@ -80,6 +81,6 @@ void harness(void)
     if (g_strtok_S == NULL) __CPROVER_assert(save == NULL, "strtok_r: NULL, NULL: nothing stored");
     __CPROVER_assert(!(j <= Ld) || delim[j] == d_j, "strtok_r: delim intact");
     CANARY("strtok_r harness end reachable");
-    if (r != NULL && !first) CANARY("continuation call returning a token reachable");
-    if (r == NULL && first) CANARY("first call without token reachable");
+    if (r != NULL) CANARY("call returning a token reachable");
+    if (r == NULL && g_strtok_S != NULL) CANARY("call without token reachable");
 }
